@@ -99,6 +99,11 @@ def comparison_pool():
         d.datetime(2019, 12, 31, 20, 30, tzinfo=TZ_MINUS330), d.datetime(1970, 1, 1), d.date(2100, 6, 15),
         HOST_FUNCTIONS[0], HOST_FUNCTIONS[1], len,
         REGEXES[0], REGEXES[1],
+        # integers no double can hold (int x int arithmetic on library-produced integers)
+        2 ** 1024, 2 ** 1100, 2 ** 1100 + 1, -(2 ** 1100),
+        # instants given with UTC offsets more than a day apart: 10:30Z, 11:30Z and 11:00Z between them
+        d.datetime(2020, 1, 3, 0, 30, tzinfo=d.timezone(d.timedelta(hours=14))), d.datetime(2020, 1, 1, 23, 30, tzinfo=d.timezone(d.timedelta(hours=-12))),
+        d.datetime(2020, 1, 2, 11, 0, tzinfo=d.timezone.utc),
     ]
     arrays = [[], [None], [0], [0.0], [1], [1.0], [1, 2], [1, 2.0], [2, 1], [1, 2, 3], [[1]], [[1.0]], [[]], [[], []], ['a'], ['a', 'b'], [True],
               [False], [None, None], [1, None], [None, 1], [d.date(2020, 1, 1)], [d.datetime(2020, 1, 1)], [{}], [{'a': 1}], [{'a': 1.0}],
